@@ -747,6 +747,15 @@ func (seqEngine) Gen(prop string, seed uint64, tier string) *Spec {
 				g.emit(&Op{K: "remove", H: 0, N: name})
 			case 2:
 				g.emit(&Op{K: "setattr", H: id, Off: uint64(rng.Intn(3)) * 4096})
+				// ... and, while the freeing of the cut-off part may still be going on in the
+				// background, the file itself goes away (removed, or replaced by a rename)
+				switch rng.Intn(4) {
+				case 0:
+					g.emit(&Op{K: "remove", H: 0, N: name})
+				case 1:
+					g.emit(&Op{K: "create", H: 0, N: "bigrepl", How: 0})
+					g.emit(&Op{K: "rename", H: 0, N: "bigrepl", H2: 0, N2: name})
+				}
 			default:
 				// cut most of the file off (the freeing goes to the background), then, while
 				// it may still be pending, write across the new end of file, grow the file
